@@ -431,7 +431,13 @@ func genErrDecimal(rng__ *rand.Rand) *ErrDecimal {
 func genInt(rng__ *rand.Rand) int64 { return racInts[rng__.Intn(len(racInts))] }
 func genBytes(rng__ *rand.Rand) []byte {
 	n := []int{0, 0, 1, 2, 8, 9, 16, 17, 40}[rng__.Intn(9)]
-	bs := make([]byte, n, n+rng__.Intn(3)*8)
+	// spare capacity: none, a word or two, or any number of cells up to 48 (an append-like callee that stages data in
+	// the spare cells goes wrong only for particular capacities: seed B14)
+	spare := rng__.Intn(3) * 8
+	if rng__.Intn(2) == 0 {
+		spare = rng__.Intn(49)
+	}
+	bs := make([]byte, n, n+spare)
 	for i := range bs {
 		bs[i] = byte([]int{0, 1, 255, 128, 7}[rng__.Intn(5)])
 	}
